@@ -477,6 +477,8 @@ TOKENS = [
     '"s"', '"q\\"\\\\\n"', 'b"\\xff\\""', 'r"\\d"',
     "#[[\n\nab]]", "#[d[a]]\"b]d]",
     'f"a{x}"', 'f"{x !r:>{w}}"', "#[f[\n\n{x}]f]", 't"{x}"', 'f"{x :a{y =}}"', 'f"\\\\N{x}"',
+    # a nested replacement field whose own format spec has a backslash: raw in a bracket f-string, an escape in a quoted one
+    "#[f[{x :{y :\\n}}]f]", 'f"{x :{y :\\t}}"',
 ]
 
 
